@@ -13,8 +13,8 @@ structure WInvC (sends : Nat → Send) (w : WPc) (wlog : List Nat) : Prop where
 
 def WInv (s : St) : Prop := WInvC s.sends s.w s.wlog
 
-theorem WInv_init : WInv init := by
-  constructor <;> simp [init]
+theorem WInv_init (f p : Nat → Nat) : WInv (initSz f p) := by
+  constructor <;> simp [initSz]
 
 set_option maxHeartbeats 2000000 in
 theorem WInv_step (s s' : St) (a : Act) (hS : SInv s) (h : WInv s) (hs : step s a = some s') : WInv s' := by
@@ -31,7 +31,7 @@ theorem WInv_step (s s' : St) (a : Act) (hS : SInv s) (h : WInv s) (hs : step s 
 
 theorem WInv_reach (s : St) (hr : Reachable s) : WInv s := by
   have : SInv s ∧ WInv s := by
-    refine reachable_induct (P := fun s => SInv s ∧ WInv s) ⟨SInv_init, WInv_init⟩ ?_ s hr
+    refine reachable_induct (P := fun s => SInv s ∧ WInv s) (fun f p => ⟨SInv_init f p, WInv_init f p⟩) ?_ s hr
     intro s s' a _ ih hs
     exact ⟨SInv_step s s' a ih.1 hs, WInv_step s s' a ih.1 ih.2 hs⟩
   exact this.2
